@@ -235,6 +235,53 @@ CLAIMED = {
 
 PENDING_REASON = 'no check registered in this revision yet (model/proofs under construction, see DESIGN.md section 4)'
 
+# third session: what was added per property (appended to the text / note of the entry)
+ADDENDA = {
+    'C03': ('History dimension: C03_history_roundtrip / _property / _fresh / _fresh_any_cfg / _poke_state (FistrCntHist: a live kind = ids + array + frame; '
+            'a fresh object is written identically by a .data writer and a frame writer, a modified one is not); the tie also runs on objects modified '
+            'through public means between construction and write (snapshot of the public state just before write, write twice, rebuilt fresh object, '
+            'read-modify-write-read).', ''),
+    'C04': ('History dimension: C04_history_roundtrip, C04_write_leaves_object, C04_second_write_same_file, C04_file_of_public_state_only, '
+            'C04_stale_frame_counterexample (UcdHist session model); the tie also runs on modified / re-written / read-then-written objects and compares '
+            'every file on disk with the session model.', ''),
+    'C05': ('Interruptions of both kinds: process death AND an exception that unwinds the stack (clean-up effects traced, hypothesis GoodUnwind evaluated per '
+            'traced run): C05_crash_inv_unwind, C05_history_inv_unwind, C05_crash_safe_unwind, C05_read_interrupt_inv, C05_interrupted_read_transparent, '
+            'C05_unwind_counterexample_marker_in_finally.', 'the clean-up effects are a traced parameter, not derived from the source of save()'),
+    'C06': ('Histories: C06_history_export, C06_history_coherent, C06_export_after_history, C06_exports_invisible, C06_ids_setter_counterexample (MeshioHist: '
+            'public state + cached id2index table); the tie runs on snapshots of live objects after public modifications, queries and repeated exports.', ''),
+    'C07': ('Oracle-only streams (snapshot comparison, the theorems do not depend on the object written): rich mixed object, default target name, '
+            'pre-existing files with realistic content, exotic spellings (path leaving a missing directory again, glob meta-characters, blanks, non-ASCII).', ''),
+    'C08': ('Histories with RETAINED slices / references and collections: C08_hist_inv, C08_hist_reachable, C08_keepRef_noop, C08_write_through_by_id, '
+            'C08_held_write_by_id, C08_collection_filter, C08_collection_set_attribute, C08_counterexample_iloc_scalar, C08_counterexample_slice_alias; state of '
+            'the attribute and of every held slice compared with the model after every op.', ''),
+    'C09': ('C09_surface_once_only (the surface elements are exactly the once-only faces: sound, complete, not repeated), surface_keep / facets_all variants, '
+            'C09_radix_key_injective / _counterexample; small-sparse id styles, renumber and intensify oracle streams.', ''),
+    'C10': ('C10_flux_similarity, C10_volume_similarity, C10_enclosed_volume_translate; oracle on objects modified through public means, under 14 scale / offset '
+            'transforms against the base mesh, and in shuffled operation histories with snapshots of parent and derived objects.', ''),
+    'C12': ('C12_similarity_area / _sign (why the exact model cannot see float effects); oracle streams absolute-scale and far-offset against exact integer '
+            'reference geometry with conditioning-derived tolerances.', 'the scale / offset streams are bounded testing of float behaviour, not proof'),
+    'C13': ('C13_nhop_mono, _selfloop_diag, _step(_selfloops), _step_noloop_counterexample, C13_memo_history(_fresh), C13_memo_wrong_key_counterexample; every '
+            'option combination in shuffled sequences with repeats and call spellings on one live object, returned matrices and user data re-compared.', ''),
+    'C14': ('C14_call_returns_arguments, C14_history_fresh, C14_history_value, C14_inplace_counterexample; bit-exact snapshots of every caller-supplied argument, '
+            'sequences reusing argument objects, weight-level oracle through indicator fields.', ''),
+    'C15': ('C15_translation_invariant, C15_moment_expanded; oracle stream translated (offsets 1e3..1e7 element sizes) with tolerances derived from the harness\'s '
+            'own cond(M); all option combinations in live sequences on one object.', 'loss of precision in absolute-position formulas and history independence are checked by the oracle, not proved'),
+    'C16': ('Scene style near-plane (integer points at the meeting planes of the octree boxes of a root box of extent 1e7..4e7) found the incomplete octree repair '
+            '(fixed 01a357a).', ''),
+    'C18': ('Histories: C18_positive_any_history, C18_positive_history_partial, C18_stored_metric_counterexample (Cfg.freshMetric); the three operations run after '
+            'random prior histories of public queries and are judged against rebuilt fresh objects only.', ''),
+    'C19': ('C19_stale_needs_stale_entry (a stale answer needs an already stale entry of the same object: soundness of the provenance-based attribution), '
+            'C19_fresh_object_stays_fresh; [A, modifier, B] for all ordered query pairs, derived objects and polyhedron meshes as live objects, bit-exact '
+            'snapshots of every live object after every operation.', ''),
+    'C20': ('Admission decision: C20_admit_iff_cos, C20_unsigned_test_counterexample, C20_fan_normal_rotate(_k), C20_upstream_normal_counterexample, '
+            'C20_upstream_admits_knife_edge (CompressAdmit), tied per applied merge (c20.admit); sharp-edge body shapes and thin-layer transfer streams.', ''),
+}
+for _p, (_t, _n) in ADDENDA.items():
+    if _p in CLAIMED:
+        CLAIMED[_p]['text'] = CLAIMED[_p]['text'] + ' THIRD SESSION: ' + _t
+        if _n:
+            CLAIMED[_p]['note'] = CLAIMED[_p]['note'] + '; ' + _n
+
 
 def main():
     props = [json.loads(l)['id'] for l in open(os.path.join(HERE, 'properties.jsonl'))]
